@@ -244,6 +244,41 @@ theorem monopole_pbc (fl : K → Int) (pad : K) (sqrt : K → K) (u : V3 K → V
   rcases hline with e | e | e <;> rw [e] <;>
     simp [M3.row, C05.axisBounds_periodic, C05.smul_one_sub_zero, one_smul']
 
+/-- **monopole_wrapped**: after the final `wrap()` every atom of the dislocation system lies inside the (possibly
+    padded) box: scaled coordinates in `[0, 1)`, along the line by the periodic wrap, across it because the two other
+    box vectors are lengthened to enclose the displaced atoms. -/
+theorem monopole_wrapped (fl : K → Int) (hfl : C05.IsFloor fl) (pad : K) (hpad : 0 < pad) (u : V3 K → V3 K) (line : Nat)
+    (center : V3 K) (base : Sys K) (hdet : M3.det base.box.vects ≠ 0) :
+    ∀ (i : Nat) (a : Atom K), (monopoleRaw fl pad u line center base).atoms[i]? = some a →
+      0 ≤ ((monopoleRaw fl pad u line center base).box.cartToRel a.pos).x ∧
+      ((monopoleRaw fl pad u line center base).box.cartToRel a.pos).x < 1 ∧
+      0 ≤ ((monopoleRaw fl pad u line center base).box.cartToRel a.pos).y ∧
+      ((monopoleRaw fl pad u line center base).box.cartToRel a.pos).y < 1 ∧
+      0 ≤ ((monopoleRaw fl pad u line center base).box.cartToRel a.pos).z ∧
+      ((monopoleRaw fl pad u line center base).box.cartToRel a.pos).z < 1 := by
+  intro i a ha
+  have hpos : (C05.wrap fl pad base.box (pbcOnly line) (base.atoms.map (fun a => displaced u center a.pos))).pos
+      = (base.atoms.map (·.pos)).map (fun p => C05.atomPos fl base.box (pbcOnly line) (displaced u center p)) := by
+    simp [C05.wrap, List.map_map, Function.comp_def]
+  simp only [monopoleRaw] at ha ⊢
+  rw [hpos, setPos_map_getElem?] at ha
+  cases hb : base.atoms[i]? with
+  | none => rw [hb] at ha; cases ha
+  | some a0 =>
+    rw [hb] at ha
+    simp only [Option.map_some, Option.some.injEq] at ha
+    subst ha
+    have hmem : displaced u center a0.pos ∈ base.atoms.map (fun a => displaced u center a.pos) :=
+      List.mem_map.mpr ⟨a0, List.mem_of_getElem? hb, rfl⟩
+    have e := C05.wrap_cartToRel fl pad hpad base.box hdet (pbcOnly line)
+      (base.atoms.map (fun a => displaced u center a.pos)) (displaced u center a0.pos)
+    show 0 ≤ ((C05.wrap fl pad base.box (pbcOnly line) _).box.cartToRel
+      (C05.atomPos fl base.box (pbcOnly line) (displaced u center a0.pos))).x ∧ _
+    rw [e]
+    obtain ⟨⟨x0, x1, _⟩, ⟨y0, y1, _⟩, ⟨z0, z1, _⟩⟩ := C05.newRel_facts fl hfl pad hpad base.box (pbcOnly line)
+      (base.atoms.map (fun a => displaced u center a.pos)) (displaced u center a0.pos) hmem
+    exact ⟨x0, x1, y0, y1, z0, z1⟩
+
 /-! ## boundary regions -/
 
 /-- `PlaneSet.outside(pos)` as coded: *not* below (inclusive) every plane, each plane having the unit normal
@@ -614,10 +649,94 @@ theorem expected_edge_orthogonal (cut line : Nat) (xi : IV) (lx ly lz : K) (hx :
     field_simp
     ring
 
+/-- the squared minimum-image distance the duplicate test uses. -/
+def testDist2 (newbox : Box K) (pbc : V3 Bool) (testpos : List (V3 K)) (i j : Nat) : K :=
+  dmag2 newbox.vects pbc.x pbc.y pbc.z (testpos.getD i ⟨0, 0, 0⟩) (testpos.getD j ⟨0, 0, 0⟩)
+
+theorem dupIds_spec (newbox : Box K) (pbc : V3 Bool) (cutoff : K) (testpos : List (V3 K)) :
+    ∀ (l : List Nat), l.Nodup → ∀ (pre : List Nat) (i : Nat) (js : List Nat), l = pre ++ i :: js →
+      (i ∈ dupIds newbox pbc cutoff testpos l ↔
+        0 < cutoff ∧ ∃ j ∈ js, testDist2 newbox pbc testpos i j < cutoff * cutoff) := by
+  intro l
+  induction l with
+  | nil => intro _ pre i js h; simp at h
+  | cons a t ih =>
+    intro hnd pre i js h
+    rw [List.nodup_cons] at hnd
+    have hstep : ∀ x, x ∈ dupIds newbox pbc cutoff testpos (a :: t) ↔
+        (x = a ∧ 0 < cutoff ∧ ∃ j ∈ t, testDist2 newbox pbc testpos a j < cutoff * cutoff) ∨
+        x ∈ dupIds newbox pbc cutoff testpos t := by
+      intro x
+      simp only [dupIds, testDist2, Bool.and_eq_true, decide_eq_true_eq, List.any_eq_true]
+      split_ifs with hc
+      · simp only [List.mem_cons]
+        constructor
+        · rintro (rfl | h')
+          · exact Or.inl ⟨rfl, hc.1, hc.2⟩
+          · exact Or.inr h'
+        · rintro (⟨rfl, _⟩ | h')
+          · exact Or.inl rfl
+          · exact Or.inr h'
+      · constructor
+        · intro h'; exact Or.inr h'
+        · rintro (⟨rfl, h1, h2⟩ | h')
+          · exact absurd ⟨h1, h2⟩ hc
+          · exact h'
+    have hsub : ∀ x, x ∈ dupIds newbox pbc cutoff testpos t → x ∈ t := by
+      intro x
+      clear ih hstep h hnd
+      induction t with
+      | nil => simp [dupIds]
+      | cons b t' ih' =>
+        simp only [dupIds]
+        split_ifs
+        · simp only [List.mem_cons]
+          rintro (rfl | h')
+          · exact Or.inl rfl
+          · exact Or.inr (ih' h')
+        · intro h'; exact List.mem_cons_of_mem _ (ih' h')
+    cases pre with
+    | nil =>
+      simp only [List.nil_append, List.cons.injEq] at h
+      obtain ⟨rfl, rfl⟩ := h
+      rw [hstep]
+      constructor
+      · rintro (⟨_, h1, h2⟩ | h')
+        · exact ⟨h1, h2⟩
+        · exact absurd (hsub _ h') hnd.1
+      · rintro ⟨h1, h2⟩; exact Or.inl ⟨rfl, h1, h2⟩
+    | cons p pre' =>
+      simp only [List.cons_append, List.cons.injEq] at h
+      obtain ⟨rfl, rfl⟩ := h
+      rw [hstep]
+      have hia : i ≠ a := by
+        intro e; apply hnd.1; rw [← e]; simp
+      constructor
+      · rintro (⟨e, _⟩ | h')
+        · exact absurd e hia
+        · exact (ih hnd.2 pre' i js rfl).mp h'
+      · intro h'; exact Or.inr ((ih hnd.2 pre' i js rfl).mpr h')
+
 /-- the reference system as `build_disl_array` uses it: atoms on the upper face along the motion direction moved to
     the lower face. -/
 def arrayBase (atol : K) (o : Orient) (base : Sys K) : Sys K :=
   { base with atoms := moveUpperFace atol base.box o.motion base.atoms }
+
+/-- positions of the linear test system of `build_disl_array`. -/
+def arrayTestPos (o : Orient) (b1 : Sys K) (burgers center : V3 K) : List (V3 K) :=
+  b1.atoms.map fun a => a.pos + linearDisp o.motion o.cut burgers
+    (absK ((b1.box.vects.row o.motion).get o.motion)) (a.pos - center)
+
+/-- the boundary atoms that enter the duplicate test. -/
+def arrayBoundaryIds (o : Orient) (b1 : Sys K) (burgers center : V3 K) : List Nat :=
+  boundaryIds o ⟨tiltedVects o b1.box.vects burgers, b1.box.origin⟩
+    (absK (((2 : Int) : K) * burgers.get o.motion / absK ((b1.box.vects.row o.motion).get o.motion)))
+    (arrayTestPos o b1 burgers center)
+
+/-- the duplicates found. -/
+def arrayDups (o : Orient) (b1 : Sys K) (burgers center : V3 K) (cutoff : K) : List Nat :=
+  dupIds ⟨tiltedVects o b1.box.vects burgers, b1.box.origin⟩ (pbcExcept o.cut) cutoff
+    (arrayTestPos o b1 burgers center) (arrayBoundaryIds o b1 burgers center)
 
 theorem moveUpperFace_spec (atol : K) (box : Box K) (motion : Nat) (atoms : List (Atom K)) :
     (moveUpperFace atol box motion atoms).length = atoms.length ∧
@@ -644,6 +763,7 @@ theorem periodicArray_ok (fl : K → Int) (rnd : K → Int) (pad : K) (u : V3 K 
     r.expected = rnd (expectedDel base.atoms.length base.box.vects newvects) ∧
     (base.atoms.length : Int) - (r.oldId.length : Int) = r.expected ∧
     r.disl.pbc = pbcExcept o.cut ∧
+    r.dups = arrayDups o b1 burgers center cutoff ∧
     ∃ (disp : List (V3 K)) (nt : Int) (out : V3 K → Bool),
       disp = arrayDisp o linear u center burgers (absK ((base.box.vects.row o.motion).get o.motion)) bw base.box
         (r.base.atoms.map (·.pos)) ∧
@@ -660,7 +780,7 @@ theorem periodicArray_ok (fl : K → Int) (rnd : K → Int) (pad : K) (u : V3 K 
     simp only [Bool.not_eq_true, Bool.not_eq_eq_eq_not, Bool.not_true, Bool.not_false] at h1 h2
     push Not at h3
     rw [hlen] at h2 h3
-    refine ⟨by simp only [hlen], rfl, rfl, h1, ?_, by simp only [hlen], ?_, rfl, _, _, _, rfl, rfl⟩
+    refine ⟨by simp only [hlen], rfl, rfl, h1, ?_, by simp only [hlen], ?_, rfl, rfl, _, _, _, rfl, rfl⟩
     · simp only [hlen]; simpa using h2
     · simp only [hlen]; omega
   · simp only [Except.ok.injEq] at h
@@ -668,7 +788,7 @@ theorem periodicArray_ok (fl : K → Int) (rnd : K → Int) (pad : K) (u : V3 K 
     simp only [Bool.not_eq_true, Bool.not_eq_eq_eq_not, Bool.not_true, Bool.not_false] at h1 h2
     push Not at h3
     rw [hlen] at h2 h3
-    refine ⟨by simp only [hlen], rfl, rfl, h1, ?_, by simp only [hlen], ?_, rfl, _, 0, fun _ => false, rfl, ?_⟩
+    refine ⟨by simp only [hlen], rfl, rfl, h1, ?_, by simp only [hlen], ?_, rfl, rfl, _, 0, fun _ => false, rfl, ?_⟩
     · simp only [hlen]; simpa using h2
     · simp only [hlen]; omega
     · simp [retype]
@@ -705,7 +825,7 @@ theorem array_old_id (fl : K → Int) (rnd : K → Int) (pad : K) (u : V3 K → 
         (ty = a.atype ∨ ∃ nt, ty = a.atype + nt) ∧
         p' + C05.latticeVec (tiltedVects o base.box.vects burgers) f = a.pos + dk ∧
         (o.cut = 0 → f.x = 0) ∧ (o.cut = 1 → f.y = 0) ∧ (o.cut = 2 → f.z = 0) := by
-  obtain ⟨hold, hbase, hbox, _, _, _, _, _, disp, nt, out, hdisp, hdisl⟩ :=
+  obtain ⟨hold, hbase, hbox, _, _, _, _, _, _, disp, nt, out, hdisp, hdisl⟩ :=
     periodicArray_ok fl rnd pad u o base burgers center linear bw cutoff atolSlip atolInt rtolInt nsym r h
   obtain ⟨hsorted, hmem⟩ := keepIds_spec base.atoms.length r.dups
   obtain ⟨hmlen, hmove⟩ := moveUpperFace_spec atolSlip base.box o.motion base.atoms
@@ -776,12 +896,46 @@ theorem array_deletion_count_partial (fl : K → Int) (rnd : K → Int) (pad : K
     absK (expectedDel base.atoms.length base.box.vects (tiltedVects o base.box.vects burgers) - ((r.expected : Int) : K))
       ≤ atolInt + rtolInt * absK ((r.expected : Int) : K) ∧
     r.disl.pbc = ⟨o.cut ≠ 0, o.cut ≠ 1, o.cut ≠ 2⟩ := by
-  obtain ⟨_, _, _, _, hclose, _, hcount, hpbc, _⟩ :=
+  obtain ⟨_, _, _, _, hclose, _, hcount, hpbc, _, _⟩ :=
     periodicArray_ok fl rnd pad u o base burgers center linear bw cutoff atolSlip atolInt rtolInt nsym r h
   obtain ⟨_, _, _, hdl, _⟩ :=
     array_old_id fl rnd pad u o base burgers center linear bw cutoff atolSlip atolInt rtolInt nsym r h hdet
   refine ⟨by rw [hdl]; exact hcount, ?_, hpbc⟩
   simpa [isclose] using hclose
+
+/-- **array_kept_boundary_atoms_apart** (part of "no overlapping atoms"): in an accepted array, a *kept* atom of the
+    boundary set is at least `cutoff` (minimum image over the two in-plane periodic directions of the tilted box) from
+    every later boundary atom in the linear test system; the atoms removed are exactly those of the boundary set that
+    have a later boundary atom within the cutoff.  PARTIAL: this is the linear test system, not the final (blended)
+    one, and only the boundary set. -/
+theorem array_kept_boundary_atoms_apart (fl : K → Int) (rnd : K → Int) (pad : K) (u : V3 K → V3 K) (o : Orient)
+    (base : Sys K) (burgers center : V3 K) (linear : Bool) (bw cutoff atolSlip atolInt rtolInt : K) (nsym : Nat)
+    (r : ArrayOut K)
+    (h : periodicArray fl rnd pad u o base burgers center linear bw cutoff atolSlip atolInt rtolInt nsym = .ok r) :
+    let b1 := arrayBase atolSlip o base
+    let newbox : Box K := ⟨tiltedVects o b1.box.vects burgers, b1.box.origin⟩
+    ∀ (pre : List Nat) (i : Nat) (js : List Nat), arrayBoundaryIds o b1 burgers center = pre ++ i :: js →
+      (i ∈ r.dups ↔ 0 < cutoff ∧ ∃ j ∈ js,
+        testDist2 newbox (pbcExcept o.cut) (arrayTestPos o b1 burgers center) i j < cutoff * cutoff) ∧
+      (i ∈ r.oldId → ∀ j ∈ js, 0 < cutoff →
+        cutoff * cutoff ≤ testDist2 newbox (pbcExcept o.cut) (arrayTestPos o b1 burgers center) i j) := by
+  intro b1 newbox pre i js hsplit
+  obtain ⟨hold, _, _, _, _, _, _, _, hdups, _⟩ :=
+    periodicArray_ok fl rnd pad u o base burgers center linear bw cutoff atolSlip atolInt rtolInt nsym r h
+  have hnd : (arrayBoundaryIds o b1 burgers center).Nodup := by
+    unfold arrayBoundaryIds boundaryIds
+    exact List.Nodup.filter _ List.nodup_range
+  have hspec := dupIds_spec newbox (pbcExcept o.cut) cutoff (arrayTestPos o b1 burgers center)
+    (arrayBoundaryIds o b1 burgers center) hnd pre i js hsplit
+  have hd : r.dups = dupIds newbox (pbcExcept o.cut) cutoff (arrayTestPos o b1 burgers center)
+      (arrayBoundaryIds o b1 burgers center) := hdups
+  refine ⟨by rw [hd]; exact hspec, ?_⟩
+  intro hi j hj hc
+  rw [hold] at hi
+  have hnot : i ∉ r.dups := ((keepIds_spec base.atoms.length r.dups).2 i).mp hi |>.2
+  by_contra hlt
+  push Not at hlt
+  exact hnot (by rw [hd]; exact hspec.mpr ⟨hc, j, hj, hlt⟩)
 
 /-! ## non-vacuity: the hypotheses of the theorems above are met by concrete runs of the model at `ℚ` -/
 section examples
